@@ -1,8 +1,8 @@
 (* Tie (C01, C02) — SEMANTIC: Sequence.sigma, deltaForm, delta and kappa, translated from the working tree on every run
    into Core.MiniPy terms.  Every `a / b` of these four functions is the primitive "qdiv" (exact rational division: float
    arithmetic read as exact, the abstraction of Model/Delta.v); x ** 2 is "pow".  self.sigma() / self.deltaForm(w) /
-   self.delta() are interpreted by RUNNING their translated bodies; countNeut / NCPR / FCR are the counts of the charge
-   pattern (tied by delta_formulas_tie); deltaMax is an ORACLE.  For EVERY charge pattern the translated code returns
+   self.delta() and — below them — self.NCPR() / self.FCR() / self.countPos() / countNeg() / countNeut() are interpreted by
+   RUNNING their translated bodies, so the chain ends at the charge pattern; deltaMax is an ORACLE.  For EVERY charge pattern the translated code returns
    exactly Model.Delta.m_sigma / m_deltaForm / m_delta, and kappa's sentinel / clamp decisions are the model's. *)
 From Coq Require Import List String Ascii ZArith QArith Qreduction Bool Arith Lia.
 From LC Require Import Core.Residue Core.Lists Core.QTools Core.MiniPy Spec.Delta Model.Delta Gen.GMiniPy.
@@ -16,26 +16,112 @@ Section DeltaTie.
 Variable p : list Z.                  (* self.chargePattern *)
 Local Notation N := (List.length p).
 
-Definition num_prim (name : string) (args : list value) : option value :=
+(* arithmetic primitives *)
+Definition prim00 (name : string) (args : list value) : value :=
   if String.eqb name "qdiv" then
-    Some match args with
-         | [a; b] => match as_Q a, as_Q b with
-                     | Some x, Some y => if Qeq_bool y 0 then VExc else VQ (Qred (x / y))
-                     | _, _ => VErr
-                     end
-         | _ => VErr
-         end
+    match args with
+    | [a; b] => match as_Q a, as_Q b with
+                | Some x, Some y => if Qeq_bool y 0 then VExc else VQ (Qred (x / y))
+                | _, _ => VErr
+                end
+    | _ => VErr
+    end
   else if String.eqb name "pow" then
-    Some match args with
-         | [VInt a; VInt 2] => VInt (a * a)
-         | [VQ q; VInt 2] => VQ (Qred (q * q))
-         | _ => VErr
-         end
-  else if String.eqb name "countNeut" then Some match args with [] => VInt (nneut p) | _ => VErr end
-  else if String.eqb name "NCPR" then Some match args with [] => VQ ((npos p - nneg p) # Z.to_pos (len p)) | _ => VErr end
-  else if String.eqb name "FCR" then Some match args with [] => VQ ((npos p + nneg p) # Z.to_pos (len p)) | _ => VErr end
-  else None.
-Definition prim0 (name : string) (args : list value) : value := match num_prim name args with Some v => v | None => VErr end.
+    match args with
+    | [VInt a; VInt 2] => VInt (a * a)
+    | [VQ q; VInt 2] => VQ (Qred (q * q))
+    | _ => VErr
+    end
+  else VErr.
+
+(* self.countPos() / countNeg() / countNeut() are interpreted by RUNNING their translated bodies on the pattern *)
+Definition cnt_env : env := [("self.chargePattern"%string, VList (map VInt p))].
+Definition run_cnt (g : stmt) : value := match MiniPy.exec prim00 0 g cnt_env with ORet v => v | ORaise => VExc | _ => VErr end.
+Definition primA (name : string) (args : list value) : value :=
+  if String.eqb name "countPos" then match args with [] => run_cnt g_countPos | _ => VErr end
+  else if String.eqb name "countNeg" then match args with [] => run_cnt g_countNeg | _ => VErr end
+  else if String.eqb name "countNeut" then match args with [] => run_cnt g_countNeut | _ => VErr end
+  else prim00 name args.
+(* self.NCPR() / self.FCR() (no pH) are interpreted by RUNNING their translated bodies *)
+Definition frac_env : env := [("self.len"%string, VInt (len p)); ("pH"%string, VNone)].
+Definition run_frac (g : stmt) : value := match MiniPy.exec primA 0 g frac_env with ORet v => v | ORaise => VExc | _ => VErr end.
+Definition prim0 (name : string) (args : list value) : value :=
+  if String.eqb name "NCPR" then match args with [] => run_frac g_NCPR | _ => VErr end
+  else if String.eqb name "FCR" then match args with [] => run_frac g_FCR | _ => VErr end
+  else primA name args.
+
+Lemma enum_len0 prim cond (f : Z -> bool) r :
+  (forall z k, truthy (MiniPy.eval prim cond (set "$x" (VInt z) (set "$i" (VInt k) r))) = VBool (f z)) ->
+  forall zs k, exists l, enum_list prim "$i" "$x" cond (EVar "$i") k (map VInt zs) r = VList l /\ Z.of_nat (List.length l) = cnt f zs.
+Proof.
+  intros Hc. induction zs as [|z zs IH]; intros k; [exists []; split; reflexivity|].
+  cbn [map enum_list cnt]. rewrite Hc. destruct (IH (k + 1)) as [l [E Hl]]. rewrite E. destruct (f z).
+  - cbn [MiniPy.eval]. rewrite lookup_set_neq by reflexivity. rewrite lookup_set_eq. cbn [is_bad].
+    exists (VInt k :: l). split; [reflexivity|]. cbn [List.length]. lia.
+  - exists l. split; [reflexivity | lia].
+Qed.
+Lemma count_where cond f : (forall z k r, truthy (MiniPy.eval prim00 cond (set "$x" (VInt z) (set "$i" (VInt k) r))) = VBool (f z)) ->
+  run_cnt (SReturn (ELen (EEnumFilter "$i" "$x" cond (EVar "$i") (EVar "self.chargePattern")))) = VInt (cnt f p).
+Proof.
+  intros Hc. unfold run_cnt. rewrite (exec_return_ok _ _ (VInt (cnt f p))); [reflexivity | | reflexivity].
+  change (MiniPy.eval prim00 (ELen ?a) cnt_env) with (match MiniPy.eval prim00 a cnt_env with VStr s0 => VInt (Z.of_nat (List.length s0)) | VList l => VInt (Z.of_nat (List.length l))
+                                      | VDict d => VInt (Z.of_nat (List.length d)) | VExc => VExc | _ => VErr end).
+  rewrite eval_enumfilter. cbn [MiniPy.eval lookup cnt_env String.eqb Ascii.eqb Bool.eqb elements].
+  destruct (enum_len0 prim00 cond f cnt_env (fun z k => Hc z k cnt_env) p 0) as [l [E Hl]]. rewrite E. now rewrite Hl.
+Qed.
+Lemma call_pos : primA "countPos" [] = VInt (npos p).
+Proof.
+  unfold primA. cbn [String.eqb Ascii.eqb Bool.eqb]. apply (count_where _ isposb).
+  intros z k r. cbn [MiniPy.eval]. rewrite lookup_set_eq. cbn [cmp_int bad2 truthy]. unfold isposb. now rewrite Z.gtb_ltb.
+Qed.
+Lemma call_neg : primA "countNeg" [] = VInt (nneg p).
+Proof. unfold primA. cbn [String.eqb Ascii.eqb Bool.eqb]. apply (count_where _ isnegb). intros z k r. cbn [MiniPy.eval]. rewrite lookup_set_eq. reflexivity. Qed.
+Lemma three_way (l : list Z) : cnt (fun z => z =? 0) l = len l - npos l - nneg l.
+Proof.
+  unfold len, npos, nneg. induction l as [|z l IH]; [reflexivity|]. cbn [cnt List.length]. rewrite IH. unfold isposb, isnegb.
+  destruct (Z.eqb_spec z 0), (Z.ltb_spec 0 z), (Z.ltb_spec z 0); lia.
+Qed.
+Lemma call_neut : primA "countNeut" [] = VInt (nneut p).
+Proof.
+  unfold primA. cbn [String.eqb Ascii.eqb Bool.eqb]. unfold nneut. rewrite <- three_way. apply (count_where _ (fun z => z =? 0)).
+  intros z k r. cbn [MiniPy.eval]. rewrite lookup_set_eq. reflexivity.
+Qed.
+
+Definition lenq : Q := Qred (inject_Z (len p) + 0).
+Lemma lenq_zero : Qeq_bool lenq 0 = (len p =? 0).
+Proof.
+  unfold lenq, len. destruct (Z.eqb_spec (Z.of_nat N) 0) as [E|E].
+  - rewrite E. reflexivity.
+  - apply not_true_is_false. intros C. apply Qeq_bool_iff in C. rewrite Qred_correct in C. unfold Qeq, Qplus, inject_Z in C. cbn in C. lia.
+Qed.
+Lemma frac_call (g : stmt) (a : stmt) (e : expr) c : g = SIf (ENe (EVar "pH") (EConst VNone)) a (SReturn (ECall "qdiv" [e; EAdd (EVar "self.len") (EConst (VQ (0 # 1)))])) ->
+  MiniPy.eval primA e frac_env = VInt c -> len p <> 0 -> run_frac g = VQ (Qred (inject_Z c / lenq)).
+Proof.
+  intros -> He Hn. unfold run_frac.
+  assert (T : truthy (MiniPy.eval primA (ENe (EVar "pH") (EConst VNone)) frac_env) = VBool false) by reflexivity.
+  rewrite (exec_if_false _ _ _ _ T).
+  assert (E2 : MiniPy.eval primA (EAdd (EVar "self.len") (EConst (VQ (0 # 1)))) frac_env = VQ lenq) by reflexivity.
+  rewrite (exec_return_ok _ _ (VQ (Qred (inject_Z c / lenq)))); [reflexivity | | reflexivity].
+  rewrite (eval_call2 _ _ _ _ (VInt c) (VQ lenq) He E2 eq_refl eq_refl). unfold primA. cbn [String.eqb Ascii.eqb Bool.eqb].
+  unfold prim00. cbn [String.eqb Ascii.eqb Bool.eqb as_Q]. rewrite lenq_zero. now replace (len p =? 0) with false by (symmetry; apply Z.eqb_neq; exact Hn).
+Qed.
+Lemma call_ncpr : len p <> 0 -> prim0 "NCPR" [] = VQ (Qred (inject_Z (npos p - nneg p) / lenq)).
+Proof.
+  intros Hn. unfold prim0. cbn [String.eqb Ascii.eqb Bool.eqb].
+  apply (frac_call g_NCPR _ (ESub (ECall "countPos" []) (ECall "countNeg" [])) _ eq_refl); [|exact Hn].
+  apply eval_sub_int; [rewrite eval_call0; apply call_pos | rewrite eval_call0; apply call_neg].
+Qed.
+Lemma call_fcr : len p <> 0 -> prim0 "FCR" [] = VQ (Qred (inject_Z (npos p + nneg p) / lenq)).
+Proof.
+  intros Hn. unfold prim0. cbn [String.eqb Ascii.eqb Bool.eqb].
+  apply (frac_call g_FCR _ (EAdd (ECall "countPos" []) (ECall "countNeg" [])) _ eq_refl); [|exact Hn].
+  apply eval_add_int; [rewrite eval_call0; apply call_pos | rewrite eval_call0; apply call_neg].
+Qed.
+Lemma frac_eq c : len p <> 0 -> (Qred (inject_Z c / lenq) == c # Z.to_pos (len p))%Q.
+Proof.
+  intros Hn. unfold lenq, len in *. rewrite !Qred_correct. unfold Qeq, Qdiv, Qmult, Qinv, Qplus, inject_Z. cbn.
+  destruct N as [|n]; [cbn in Hn; lia|]. cbn. destruct c; cbn; lia.
+Qed.
 
 (* ---------- sigma ---------- *)
 Definition sigma_val : value := if nneut p =? len p then VInt 0 else VQ (m_sigma p).
@@ -46,20 +132,27 @@ Proof. intros H E. unfold Qeq in E. cbn in E. lia. Qed.
 Theorem sigma_tie r : lookup "self.len" r = VInt (len p) -> MiniPy.exec prim0 0 g_sigma r = ORet sigma_val.
 Proof.
   intros Hl. unfold g_sigma, sigma_val.
+  assert (Ecn : MiniPy.eval prim0 (ECall "countNeut" []) r = VInt (nneut p)).
+  { rewrite eval_call0. unfold prim0. cbn [String.eqb Ascii.eqb Bool.eqb]. apply call_neut. }
   assert (T : truthy (MiniPy.eval prim0 (EEq (ECall "countNeut" []) (EVar "self.len")) r) = VBool (nneut p =? len p)).
-  { rewrite (eval_eq_int _ _ _ (nneut p) (len p)); [reflexivity | reflexivity | rewrite eval_var; exact Hl]. }
+  { rewrite (eval_eq_int _ _ _ (nneut p) (len p)); [reflexivity | exact Ecn | rewrite eval_var; exact Hl]. }
   destruct (nneut p =? len p) eqn:Ez.
   - rewrite (exec_if_true _ _ _ _ T). reflexivity.
   - rewrite (exec_if_false _ _ _ _ T). apply exec_return_ok; [|reflexivity].
-    set (nc := (npos p - nneg p) # Z.to_pos (len p)). set (fc := (npos p + nneg p) # Z.to_pos (len p)).
+    assert (Hpn : 0 < npos p + nneg p).
+    { apply Z.eqb_neq in Ez. unfold nneut in Ez. pose proof (cnt_nonneg isposb p). pose proof (cnt_nonneg isnegb p). unfold npos, nneg in *. lia. }
+    assert (Hn : len p <> 0).
+    { pose proof (cnt_le_length isposb p). pose proof (cnt_le_length isnegb p). unfold npos, nneg, len in *. lia. }
+    set (nc := Qred (inject_Z (npos p - nneg p) / lenq)). set (fc := Qred (inject_Z (npos p + nneg p) / lenq)).
+    assert (Enc : MiniPy.eval prim0 (ECall "NCPR" []) r = VQ nc) by (rewrite eval_call0; apply call_ncpr; exact Hn).
+    assert (Efc : MiniPy.eval prim0 (ECall "FCR" []) r = VQ fc) by (rewrite eval_call0; apply call_fcr; exact Hn).
     assert (Ep : MiniPy.eval prim0 (ECall "pow" [ECall "NCPR" []; EConst (VInt 2)]) r = VQ (Qred (nc * nc))).
-    { rewrite (eval_call2 _ _ _ _ (VQ nc) (VInt 2)); reflexivity. }
-    rewrite (eval_call2 _ _ _ _ (VQ (Qred (nc * nc))) (VQ fc) Ep); try reflexivity.
-    unfold prim0, num_prim. cbn [String.eqb Ascii.eqb Bool.eqb as_Q].
+    { rewrite (eval_call2 _ _ _ _ (VQ nc) (VInt 2) Enc (eval_const _ _) eq_refl eq_refl). reflexivity. }
+    rewrite (eval_call2 _ _ _ _ (VQ (Qred (nc * nc))) (VQ fc) Ep Efc eq_refl eq_refl).
+    unfold prim0. cbn [String.eqb Ascii.eqb Bool.eqb]. unfold primA. cbn [String.eqb Ascii.eqb Bool.eqb]. unfold prim00. cbn [String.eqb Ascii.eqb Bool.eqb as_Q].
     assert (Hf : Qeq_bool fc 0 = false).
-    { apply not_true_is_false. intros E. apply Qeq_bool_iff in E. revert E. apply pos_Q.
-      apply Z.eqb_neq in Ez. unfold nneut in Ez. pose proof (cnt_nonneg isposb p). pose proof (cnt_nonneg isnegb p). unfold npos, nneg in *. lia. }
-    rewrite Hf. unfold m_sigma. rewrite Ez. fold nc fc. f_equal. apply Qred_complete. now rewrite Qred_correct.
+    { apply not_true_is_false. intros E. apply Qeq_bool_iff in E. unfold fc in E. rewrite (frac_eq _ Hn) in E. revert E. apply pos_Q. exact Hpn. }
+    rewrite Hf. unfold m_sigma. rewrite Ez. f_equal. apply Qred_complete. unfold nc, fc. rewrite Qred_correct, !(frac_eq _ Hn). reflexivity.
 Qed.
 
 (* ---------- deltaForm ---------- *)
@@ -143,7 +236,7 @@ Proof.
   intros H1 Hb.
   assert (E2 : eval (EAdd (EVar "bloblen") (EConst (VQ (0 # 1)))) r = VQ wq) by (cbn [MiniPy.eval]; rewrite Hb; reflexivity).
   rewrite (eval_call2 _ _ _ _ (VInt d) (VQ wq) H1 E2 eq_refl eq_refl).
-  unfold prim1. cbn [String.eqb Ascii.eqb Bool.eqb]. unfold prim0, num_prim. cbn [String.eqb Ascii.eqb Bool.eqb as_Q]. now rewrite wq_nonzero.
+  unfold prim1. cbn [String.eqb Ascii.eqb Bool.eqb]. unfold prim0; cbn [String.eqb Ascii.eqb Bool.eqb]; unfold primA; cbn [String.eqb Ascii.eqb Bool.eqb]; unfold prim00; cbn [String.eqb Ascii.eqb Bool.eqb as_Q]. now rewrite wq_nonzero.
 Qed.
 
 (* the blob sigma as a value: VInt 0 when the window is uncharged, else the model's rational *)
@@ -202,7 +295,7 @@ Proof.
     { assert (Ep : eval (ECall "pow" [EVar "bncpr"; EConst (VInt 2)]) r5 = VQ (Qred (nq * nq))).
       { rewrite (eval_call2 _ _ _ _ (VQ nq) (VInt 2)); [reflexivity | rewrite eval_var; unfold r5, r4; lk; reflexivity | reflexivity | reflexivity | reflexivity]. }
       rewrite (eval_call2 _ _ _ _ (VQ (Qred (nq * nq))) (VQ fq) Ep); [| rewrite eval_var; unfold r5; lk; reflexivity | reflexivity | reflexivity].
-      unfold prim1. cbn [String.eqb Ascii.eqb Bool.eqb]. unfold prim0, num_prim. cbn [String.eqb Ascii.eqb Bool.eqb as_Q]. rewrite Hz.
+      unfold prim1. cbn [String.eqb Ascii.eqb Bool.eqb]. unfold prim0; cbn [String.eqb Ascii.eqb Bool.eqb]; unfold primA; cbn [String.eqb Ascii.eqb Bool.eqb]; unfold prim00; cbn [String.eqb Ascii.eqb Bool.eqb as_Q]. rewrite Hz.
       f_equal. apply Qred_complete. unfold nq, fq. rewrite !Qred_correct, !wq_pos_eq. reflexivity. }
     rewrite (exec_assign_ok _ _ _ _ Ev eq_refl). cbn [MiniPy.exec_list].
     eexists. split; [reflexivity|]. lk. split; [reflexivity|].
@@ -238,7 +331,7 @@ Qed.
 
 Lemma qdiv_num v q nb : numv v q -> nb <> 0 -> prim1 "qdiv" [v; VInt nb] = VQ (Qred (q / inject_Z nb)).
 Proof.
-  intros H Hn. unfold prim1. cbn [String.eqb Ascii.eqb Bool.eqb]. unfold prim0, num_prim. cbn [String.eqb Ascii.eqb Bool.eqb].
+  intros H Hn. unfold prim1. cbn [String.eqb Ascii.eqb Bool.eqb]. unfold prim0; cbn [String.eqb Ascii.eqb Bool.eqb]; unfold primA; cbn [String.eqb Ascii.eqb Bool.eqb]; unfold prim00; cbn [String.eqb Ascii.eqb Bool.eqb].
   rewrite (numv_asQ _ _ H). cbn [as_Q].
   replace (Qeq_bool (inject_Z nb) 0) with false; [reflexivity|]. symmetry. apply not_true_is_false. intros E. apply Qeq_bool_iff in E.
   unfold Qeq, inject_Z in E. cbn in E. lia.
@@ -375,7 +468,7 @@ Qed.
 Lemma qdiv2 (prim : string -> list value -> value) v q : numv v q -> (forall a, prim "qdiv"%string a = prim0 p "qdiv"%string a) ->
   prim "qdiv"%string [v; VInt 2] = VQ (Qred (q / 2)).
 Proof.
-  intros H Hp. rewrite Hp. unfold prim0, num_prim. cbn [String.eqb Ascii.eqb Bool.eqb]. rewrite (numv_asQ _ _ H). reflexivity.
+  intros H Hp. rewrite Hp. unfold prim0; cbn [String.eqb Ascii.eqb Bool.eqb]; unfold primA; cbn [String.eqb Ascii.eqb Bool.eqb]; unfold prim00; cbn [String.eqb Ascii.eqb Bool.eqb]. rewrite (numv_asQ _ _ H). reflexivity.
 Qed.
 
 (* delta on EVERY charge pattern: the model's value *)
@@ -419,7 +512,7 @@ Proof.
     assert (Ek : MiniPy.eval prim3 (ECall "qdiv" [ECall "delta" []; ECall "deltaMax" []]) r = VQ k).
     { rewrite (eval_call2 _ _ _ _ (VQ (m_delta p)) (VQ dm) Ed Em eq_refl eq_refl).
       unfold prim3. cbn [String.eqb Ascii.eqb Bool.eqb]. unfold prim2. cbn [String.eqb Ascii.eqb Bool.eqb]. unfold prim1. cbn [String.eqb Ascii.eqb Bool.eqb].
-      unfold prim0, num_prim. cbn [String.eqb Ascii.eqb Bool.eqb as_Q]. now rewrite Ez. }
+      unfold prim0; cbn [String.eqb Ascii.eqb Bool.eqb]; unfold primA; cbn [String.eqb Ascii.eqb Bool.eqb]; unfold prim00; cbn [String.eqb Ascii.eqb Bool.eqb as_Q]. now rewrite Ez. }
     rewrite exec_seq, (exec_assign_ok _ _ _ _ Ek eq_refl).
     assert (Tc : truthy (MiniPy.eval prim3 (EAnd (EGt (EVar "kappaVal") (EConst (VQ (1 # 1)))) (ELt (EVar "kappaVal") (EConst (VQ (11 # 10))))) (set "kappaVal" (VQ k) r)) =
                  VBool (Qltb 1 k && Qltb k (11 # 10))).
